@@ -31,406 +31,121 @@
 //         exactly sized allocation: any read past the bytes is an ASan abort)
 //         N:<slot> (pointer for %n)   w:<hex bytes> (wide string: each byte one wchar_t, terminated)
 // result: "<ret> <hex of the characters handed to the callback>"
-#include "common/hv.h"
-#include <cstdarg>
-#include <sys/wait.h>
-#include <climits>
-#include <memory>
-#include <algorithm>
-#include <igris/util/printf_impl.h>
+#include "C06_common.h"
 
-static_assert(sizeof(long) == 8 && sizeof(void *) == 8 && sizeof(int) == 4, "LP64 assumed");
-static_assert((char)0x80 < 0, "char signed assumed");
-
-extern "C" int igv_vsprintf(char *s, const char *format, va_list ap);
-extern "C" int igv_sprintf(char *buf, const char *format, ...);
-extern "C" int vfdprintf(int fd, const char *format, va_list args);
-extern "C" int fdprintf(int fd, const char *format, ...);
-extern "C" int igv_snprintf(char *buf, size_t maxlen, const char *format, ...);
-#ifndef C06_NO_VSNPRINTF
-extern "C" int igv_vsnprintf(char *buf, size_t maxlen, const char *format, va_list ap);
-#endif
-
-extern "C" int c06c_print_i_buff_sz(void);
-extern "C" const char *c06c_null_str(void);
-extern "C" unsigned long c06c_null_str_size(void);
-extern "C" unsigned c06c_ops(int i);
-extern "C" int c06c_ptr_digits(void);
-extern "C" unsigned long c06c_sizeof_ret(void);
-extern "C" unsigned long c06c_n_size(int i);
-
-using namespace hv;
-typedef std::vector<uint8_t> bytes;
-
-// ---------------------------------------------------------------- write() under fdputc
-// compat/libc/stdio/fdputc.c is compiled with -Dwrite=igv_write: the real
-// fdputc runs, its system call lands here.
-static bytes g_fd_out;
-static long g_fd_limit = -1;
-extern "C" ssize_t igv_write(int fd, const void *buf, size_t n)
+// ---------------------------------------------------------------- %p fields (round 3b)
+// The property fixes for %p only "0x followed by hex digits that parse back to the pointer": the NUMBER of
+// digits (leading zeros), hence the length of the field and the blanks a width adds, is left open.  The compared
+// result therefore carries every %p field in ONE canonical form - `0x` + exactly 16 lower-case digits, the
+// blanks recomputed for that length on the side where the real field has them - whatever digit count the code
+// under test chose; all other conversions stay byte-exact.  The field is found behaviourally: the engine is run
+// on the format cut off in front of the directive and behind its conversion character.
+struct PField
 {
-    (void)fd;
-    if (g_fd_limit >= 0 && (long)g_fd_out.size() >= g_fd_limit)
-        return -1;
-    for (size_t i = 0; i < n; i++)
-        g_fd_out.push_back(((const uint8_t *)buf)[i]);
-    return (ssize_t)n;
-}
-
-// ---------------------------------------------------------------- arguments
-struct Arg
-{
-    char kind; // i l p s u n
-    long long v = 0;
-    bytes s;
-    exact_buf *buf = nullptr;
+    size_t a = 0, b = 0;     // the field is out[a, b)
+    bool ok = false;         // [blanks]0x<k >= 1 hex digits whose value is the pointer>[blanks]
+    bool left = false;       // blanks behind the text
+    std::string core;        // "0x..." as the code printed it
+    std::string why;
+    int diri = -1;
 };
-
-static bool parse_arg(const std::string &w, Arg &a)
+static std::vector<PField> locate_p_fields(const bytes &f, const Parsed &P, const std::vector<Arg> &args, const bytes &out)
 {
-    if (w.size() < 2 || w[1] != ':')
-        return false;
-    a.kind = w[0];
-    std::string r = w.substr(2);
-    switch (a.kind)
+    std::vector<PField> v;
+    for (size_t di = 0; di < P.dirs.size(); di++)
     {
-    case 'i':
-    case 'l':
-        a.v = strtoll(r.c_str(), 0, 10);
-        return true;
-    case 'p':
-        a.v = (long long)strtoull(r.c_str(), 0, 16);
-        return true;
-    case 'n':
-        return true;
-    case 's':
-    case 'u':
-    case 'w':
-        a.s = unhex(r);
-        return true;
-    case 'N':
-        a.v = strtoll(r.c_str(), 0, 10);
-        return true;
+        const Dir &d = P.dirs[di];
+        if (d.conv != 'p' || d.argi < 0 || d.argi >= (int)args.size() || args[d.argi].kind != 'p')
+            continue;
+        PField pf;
+        pf.diri = (int)di;
+        bytes outs[2];
+        size_t cuts[2] = {d.start, d.pos + 1};
+        for (int q = 0; q < 2; q++)
+        {
+            bytes cut(f.begin(), f.begin() + (long)cuts[q]);
+            cut.push_back(0);
+            exact_buf cb(cut);
+            Sink sk;
+            Call c2{W_PRINTF, &sk, nullptr, 0};
+            dispatch(&c2, (const char *)cb.p, args, 0);
+            outs[q] = sk.out;
+        }
+        if (outs[0].size() > outs[1].size() || outs[1].size() > out.size() ||
+            !std::equal(outs[1].begin(), outs[1].end(), out.begin()))
+        {
+            pf.why = "the output of the format cut behind the directive is not a prefix of the whole output";
+            v.push_back(pf);
+            continue;
+        }
+        pf.a = outs[0].size();
+        pf.b = outs[1].size();
+        std::string field(out.begin() + (long)pf.a, out.begin() + (long)pf.b);
+        size_t x = 0, y = field.size();
+        while (x < y && field[x] == ' ') x++;
+        while (y > x && field[y - 1] == ' ') y--;
+        pf.left = y < field.size();
+        pf.core = field.substr(x, y - x);
+        bool okp = pf.core.size() > 2 && pf.core[0] == '0' && pf.core[1] == 'x' && !(x > 0 && y < field.size());
+        unsigned long long val = 0;
+        for (size_t q = 2; okp && q < pf.core.size(); q++)
+        {
+            int hvv = hexval(pf.core[q]);
+            if (hvv < 0 || (val >> 60)) okp = false; // not a hex digit / more than 64 significant bits
+            else val = val * 16 + (unsigned)hvv;
+        }
+        okp = okp && val == (unsigned long long)args[d.argi].v;
+        if (!okp) pf.why = "the %p field `" + field + "` is not [blanks]0x<hex digits that parse back to the pointer>[blanks]";
+        pf.ok = okp;
+        v.push_back(pf);
     }
-    return false;
+    return v;
 }
-
-// ---------------------------------------------------------------- the shim
-struct Sink
+static std::string canon_p_field(const PField &pf, unsigned long long val)
+{
+    char tmp[40];
+    snprintf(tmp, sizeof tmp, "0x%016llx", val);
+    std::string core = tmp;
+    size_t w = pf.b - pf.a;
+    std::string blanks(w > core.size() ? w - core.size() : 0, ' ');
+    return pf.left ? core + blanks : blanks + core;
+}
+// the output with every well-formed %p field in canonical form; `map` turns a count of characters of the real
+// output (at a directive boundary) into the count of the canonical output
+struct Canon
 {
     bytes out;
-    long calls = 0;
-};
-static void sink_cb(void *d, int c)
-{
-    Sink *s = (Sink *)d;
-    s->calls++;
-    s->out.push_back((uint8_t)c);
-}
-
-enum Which
-{
-    W_PRINTF,
-    W_VSPRINTF,
-    W_FD,
-    W_GLIBC,
-    W_SPRINTF,
-    W_SNPRINTF,
-    W_FDPRINTF,
-    W_VSNPRINTF
-};
-struct Call
-{
-    Which which;
-    Sink *sink;
-    char *buf;
-    size_t bufsz;
-};
-
-static int shim(Call *c, const char *fmt, ...)
-{
-    va_list ap;
-    va_start(ap, fmt);
-    int r = 0;
-    switch (c->which)
+    std::vector<PField> fields;
+    std::vector<long> delta; // per field: canonical length - real length
+    long map(long n) const
     {
-    case W_PRINTF:
-        r = __printf(sink_cb, c->sink, fmt, ap);
-        break;
-    case W_VSPRINTF:
-        r = igv_vsprintf(c->buf, fmt, ap);
-        break;
-    case W_FD:
-        r = vfdprintf(7, fmt, ap);
-        break;
-    case W_GLIBC:
-        r = vsnprintf(c->buf, c->bufsz, fmt, ap);
-        break;
-    case W_VSNPRINTF:
-#ifndef C06_NO_VSNPRINTF
-        r = igv_vsnprintf(c->buf, c->bufsz, fmt, ap);
-#endif
-        break;
-    default:
-        break;
+        long m = n;
+        for (size_t i = 0; i < fields.size(); i++)
+            if (fields[i].ok && (long)fields[i].b <= n) m += delta[i];
+        return m;
     }
-    va_end(ap);
-    return r;
-}
-
-// Build the variadic call with the right C types, argument by argument.
-static const size_t MAXARGS = 6;
-template <class... A> static int dispatch(Call *c, const char *fmt, const std::vector<Arg> &args, size_t i, A... a)
-{
-    if (i == args.size())
-    {
-        if (c->which == W_SPRINTF) // igv_sprintf: the variadic entry itself
-            return igv_sprintf(c->buf, fmt, a...);
-        if (c->which == W_SNPRINTF)
-            return igv_snprintf(c->buf, c->bufsz, fmt, a...);
-        if (c->which == W_FDPRINTF)
-            return fdprintf(7, fmt, a...);
-        return shim(c, fmt, a...);
-    }
-    if constexpr (sizeof...(A) < MAXARGS)
-    {
-        const Arg &x = args[i];
-        switch (x.kind)
-        {
-        case 'i':
-            return dispatch(c, fmt, args, i + 1, a..., (int)x.v);
-        default:
-            // every other argument (long, long long, intmax_t, size_t,
-            // ptrdiff_t, char*, void*) is one 64-bit INTEGER-class slot on
-            // LP64 SysV/AAPCS64; passing them all as `long long` keeps the
-            // number of template instantiations (and the build time) small
-            return dispatch(c, fmt, args, i + 1, a...,
-                            x.kind == 'l' || x.kind == 'p' ? (long long)x.v : x.kind == 'n' ? 0LL : (long long)(uintptr_t)x.buf->p);
-        }
-    }
-    return -777;
-}
-
-// ---------------------------------------------------------------- ISO classifier
-// An independent, deliberately plain parser of the directive grammar: decides
-// whether ISO C defines the behaviour (so that glibc is a valid oracle) and
-// extracts what the %p oracle needs.
-struct Dir
-{
-    bool minus = false, plus = false, space = false, hash = false, zero = false;
-    int width_kind = 0; // 0 none 1 literal 2 star
-    long width = 0;
-    int prec_kind = 0;
-    bool prec_written = false; // a '.' appears in the directive (even if `*` then gives a negative value)
-    long prec = 0;
-    std::string len;
-    char conv = 0;
-    int argi = -1; // index of the value argument
-    size_t pos = 0; // index of the conversion character in the format
-    size_t start = 0; // index of the directive's '%'
 };
-struct Parsed
+static Canon canon_output(const bytes &f, const Parsed &P, const std::vector<Arg> &args, const bytes &out)
 {
-    bool defined = true; // ISO defines the behaviour, arguments fit
-    bool has_p = false, has_lit_wp = false;
-    bool wide = false;        // %lc / %ls with a wide argument (ISO defines it, the Lean spec leaves it out)
-    bool has_n = false;       // a %n directive
-    bool lit_overflow = false; // a literal width/precision beyond INT_MAX: atoi overflows (undefined in C)
-    bool lit_runnable = true;  // ... and what host atoi makes of it, (int)strtol, is small enough to run
-    std::vector<Dir> dirs;
-    std::string why;
-    std::string need; // kinds of the arguments the format consumes, in order
-};
-
-static Parsed classify(const bytes &f, const std::vector<Arg> &args)
-{
-    Parsed P;
-    size_t ai = 0;
-    auto bad = [&](const char *w) { if (P.defined) { P.defined = false; P.why = w; } };
-    auto next_int = [&](long &out) {
-        P.need.push_back('i');
-        if (ai >= args.size() || args[ai].kind != 'i') { bad("arg"); ai++; return; }
-        out = (long)args[ai++].v;
-    };
-    for (size_t i = 0; i < f.size(); i++)
+    Canon C;
+    C.out = out;
+    C.fields = locate_p_fields(f, P, args, out);
+    C.delta.assign(C.fields.size(), 0);
+    for (size_t i = C.fields.size(); i-- > 0;)
     {
-        if (f[i] != '%')
-            continue;
-        Dir d;
-        d.start = i;
-        i++;
-        for (; i < f.size(); i++)
-        {
-            if (f[i] == '-') d.minus = true;
-            else if (f[i] == '+') d.plus = true;
-            else if (f[i] == ' ') d.space = true;
-            else if (f[i] == '#') d.hash = true;
-            else if (f[i] == '0') d.zero = true;
-            else break;
-        }
-        if (i < f.size() && f[i] == '*')
-        {
-            d.width_kind = 2;
-            next_int(d.width);
-            if (d.width == INT_MIN) bad("width INT_MIN");
-            i++;
-            // not ISO syntax, but igris skips digits here (it parses a precision
-            // without '.'), so the conversion that follows still takes its argument
-            while (i < f.size() && isdigit(f[i])) { bad("digits after *"); i++; }
-        }
-        else if (i < f.size() && isdigit(f[i]))
-        {
-            d.width_kind = 1;
-            P.has_lit_wp = true;
-            unsigned long long exact = 0; // saturating at LONG_MAX, like strtol
-            while (i < f.size() && isdigit(f[i]))
-            {
-                if (d.width <= 100000) d.width = d.width * 10 + (f[i] - '0');
-                if (d.width > 100000) bad("huge width");
-                exact = exact > (unsigned long long)LONG_MAX / 10 - 1 ? (unsigned long long)LONG_MAX : exact * 10 + (unsigned)(f[i] - '0');
-                i++;
-            }
-            if (exact > (unsigned long long)INT_MAX)
-            {
-                P.lit_overflow = true;
-                int wrapped = (int)(long)exact;
-                if (wrapped > 4096 || wrapped < -4096) P.lit_runnable = false;
-            }
-        }
-        if (i < f.size() && f[i] == '.')
-        {
-            i++;
-            d.prec_kind = 1;
-            d.prec_written = true;
-            if (i < f.size() && f[i] == '*')
-            {
-                d.prec_kind = 2;
-                next_int(d.prec);
-                i++;
-            }
-            else
-            {
-                if (i < f.size() && isdigit(f[i])) P.has_lit_wp = true;
-                unsigned long long exact = 0;
-                while (i < f.size() && isdigit(f[i]))
-                {
-                    if (d.prec <= 100000) d.prec = d.prec * 10 + (f[i] - '0');
-                    if (d.prec > 100000) bad("huge precision");
-                    exact = exact > (unsigned long long)LONG_MAX / 10 - 1 ? (unsigned long long)LONG_MAX : exact * 10 + (unsigned)(f[i] - '0');
-                    i++;
-                }
-                if (exact > (unsigned long long)INT_MAX)
-                {
-                    P.lit_overflow = true;
-                    int wrapped = (int)(long)exact;
-                    if (wrapped > 4096 || wrapped < -4096) P.lit_runnable = false;
-                }
-            }
-            if (d.prec < 0) d.prec_kind = 0; // negative precision: as if omitted
-        }
-        if (i < f.size() && f[i] == 'L')
-        {
-            d.len = "L";
-            i++;
-        }
-        else if (i < f.size() && (f[i] == 'h' || f[i] == 'l'))
-        {
-            d.len = std::string(1, (char)f[i]);
-            i++;
-            if (i < f.size() && f[i] == (uint8_t)d.len[0]) { d.len += d.len; i++; }
-        }
-        else if (i < f.size() && (f[i] == 'j' || f[i] == 'z' || f[i] == 't'))
-        {
-            d.len = std::string(1, (char)f[i]);
-            i++;
-        }
-        if (i >= f.size()) { bad("truncated directive"); P.dirs.push_back(d); break; }
-        d.conv = (char)f[i];
-        d.pos = i;
-        bool plain = !d.minus && !d.plus && !d.space && !d.hash && !d.zero && !d.width_kind && !d.prec_written && d.len.empty();
-        switch (d.conv)
-        {
-        case '%':
-            if (!plain) bad("%% with options");
-            break;
-        case 'd': case 'i': case 'u':
-            if (d.hash) bad("# with d/i/u");
-            /* fallthrough */
-        case 'o': case 'x': case 'X':
-        {
-            bool wide = d.len == "l" || d.len == "ll" || d.len == "j" || d.len == "z" || d.len == "t";
-            if (d.len == "L") bad("L with integer conversion");
-            d.argi = (int)ai;
-            P.need.push_back(wide ? 'l' : 'i');
-            if (ai >= args.size() || args[ai].kind != (wide ? 'l' : 'i')) bad("arg");
-            ai++;
-            break;
-        }
-        case 'c':
-            if (d.len == "l" && ai < args.size() && args[ai].kind == 'i' && args[ai].v >= 1 && args[ai].v <= 127)
-                P.wide = true; // %lc of an ASCII wint_t: defined (wcrtomb in the C locale gives the character)
-            else if (!d.len.empty()) bad("option undefined for c");
-            if (d.hash || d.zero || d.prec_kind) bad("option undefined for c");
-            d.argi = (int)ai;
-            P.need.push_back('i');
-            if (ai >= args.size() || args[ai].kind != 'i') bad("arg");
-            ai++;
-            break;
-        case 's':
-            if (d.len == "l" && ai < args.size() && args[ai].kind == 'w')
-            {
-                // %ls of a wide string of ASCII characters: defined
-                P.wide = true;
-                if (d.hash || d.zero) bad("option undefined for s");
-                d.argi = (int)ai;
-                P.need.push_back('w');
-                ai++;
-                break;
-            }
-            if (d.hash || d.zero || !d.len.empty()) bad("option undefined for s");
-            d.argi = (int)ai;
-            P.need.push_back('s');
-            if (ai >= args.size()) { bad("arg"); ai++; break; }
-            if (args[ai].kind == 's') {}
-            else if (args[ai].kind == 'u')
-            {
-                // an unterminated array needs a precision that stays inside it
-                bool has_nul = false;
-                for (auto b : args[ai].s) if (!b) has_nul = true;
-                if (!has_nul && !(d.prec_kind && d.prec <= (long)args[ai].s.size())) bad("unterminated string");
-            }
-            else bad("arg");
-            ai++;
-            break;
-        case 'p':
-            P.has_p = true;
-            if (d.hash || d.zero || d.plus || d.space || d.prec_kind || !d.len.empty()) bad("option undefined for p");
-            d.argi = (int)ai;
-            P.need.push_back('p');
-            if (ai >= args.size() || args[ai].kind != 'p') bad("arg");
-            ai++;
-            break;
-        case 'n':
-            // ISO defines %n (without flags, width, precision); kept out of the glibc diff (glibc refuses %n in
-            // a writable format under _FORTIFY_SOURCE), judged by its own oracle in `pn`
-            P.has_n = true;
-            d.argi = (int)ai;
-            P.need.push_back('N');
-            if (ai >= args.size() || args[ai].kind != 'N') bad("arg");
-            ai++;
-            bad("n conversion");
-            break;
-        default:
-            bad("conversion outside the fragment");
-        }
-        P.dirs.push_back(d);
+        const PField &pf = C.fields[i];
+        if (!pf.ok) continue;
+        // overlapping fields cannot happen (cuts are increasing); keep the guard cheap
+        if (i + 1 < C.fields.size() && C.fields[i + 1].ok && C.fields[i + 1].a < pf.b) { C.fields[i].ok = false; continue; }
+        std::string cf = canon_p_field(pf, (unsigned long long)args[P.dirs[pf.diri].argi].v);
+        C.delta[i] = (long)cf.size() - (long)(pf.b - pf.a);
+        C.out.erase(C.out.begin() + (long)pf.a, C.out.begin() + (long)pf.b);
+        C.out.insert(C.out.begin() + (long)pf.a, cf.begin(), cf.end());
     }
-    if (ai != args.size()) bad("surplus args");
-    return P;
+    return C;
 }
 
 // ---------------------------------------------------------------- run
-static std::string former_finding_class(const Parsed &P, const std::vector<Arg> &args);
 static std::string res(long ret, const bytes &out) { return std::to_string(ret) + " " + hex(out); }
 
 // Every op is executed behind the same short history of calls through each entry point (state that leaked
@@ -636,11 +351,26 @@ static void run_one(const std::vector<std::string> &w, out &o)
     if (ret != sink.calls)
         o.fail("return value " + std::to_string(ret) + " != " + std::to_string(sink.calls) + " characters emitted");
 
+    // round 3b: the compared result carries every %p field in canonical form (see locate_p_fields); `outc` is
+    // `out` itself when the format has no %p or the code prints 0x + 16 lower-case digits.  For the wrapper ops the
+    // real buffer is judged against the real engine output by the oracle; when that holds, the result shown is
+    // what the same wrapper semantics give on the canonical output (identical to the real buffer when outc == out).
+    Canon CN;
+    CN.out = out;
+    if (P.has_p && op != "pfmin") CN = canon_output(f, P, args, out);
+    const bytes &outc = CN.out;
+    long retc = ret + ((long)outc.size() - (long)out.size());
+    for (auto &pf : CN.fields)
+    {
+        if (!pf.ok && P.defined) o.fail(pf.why);
+        if (pf.ok && pf.core.size() != 18) o.tag("p-digits-not-16");
+    }
+
     if (op == "pf" || op == "pfmin") // pfmin: pf, kept apart for the driver (probes of C06-star-width-int-min)
-        o.result = res(ret, out);
+        o.result = res(retc, outc);
     else if (op == "pn")
     {
-        o.result = res(ret, out);
+        o.result = res(retc, outc);
         for (auto &d : P.dirs)
             if (d.conv == 'n' && d.argi >= 0 && d.argi < (int)args.size() && args[d.argi].kind == 'N')
             {
@@ -648,6 +378,7 @@ static void run_one(const std::vector<std::string> &w, out &o)
                 size_t sz = a.buf->n;
                 unsigned long long val = 0;
                 for (size_t q = 0; q < sz; q++) val |= (unsigned long long)a.buf->p[q] << (8 * q);
+                size_t result_at = o.result.size();
                 o.result += " n" + std::to_string(a.v) + ":" + std::to_string(sz) + ":" + std::to_string(val);
                 // ISO: "the number of characters written to the output stream so far by this call" =
                 // what the engine emits for the format cut off in front of this directive
@@ -662,6 +393,14 @@ static void run_one(const std::vector<std::string> &w, out &o)
                 if (sz < 8) expect &= (1ull << (8 * sz)) - 1;
                 if (val != expect)
                     o.fail("%n stored " + std::to_string(val) + ", " + std::to_string(sk.calls) + " characters were written so far");
+                else if (CN.map(sk.calls) != sk.calls)
+                {
+                    // %p fields in front of this %n: the count in the canonical output
+                    unsigned long long cv = (unsigned long long)CN.map(sk.calls);
+                    if (sz < 8) cv &= (1ull << (8 * sz)) - 1;
+                    o.result.resize(result_at);
+                    o.result += " n" + std::to_string(a.v) + ":" + std::to_string(sz) + ":" + std::to_string(cv);
+                }
                 o.tag(("n:" + (d.len.empty() ? std::string("int") : d.len)).c_str());
                 if (sk.calls > 255) o.tag("n-count>255");
             }
@@ -676,6 +415,12 @@ static void run_one(const std::vector<std::string> &w, out &o)
         expect.push_back(0);
         if (r2 != ret || b.vec() != expect)
             o.fail("vsprintf/sprintf differs from __printf + terminator");
+        else if (outc != out)
+        {
+            bytes ec = outc;
+            ec.push_back(0);
+            o.result = res(retc, ec);
+        }
     }
     else if (is_sn && sn_big)
     {
@@ -691,6 +436,12 @@ static void run_one(const std::vector<std::string> &w, out &o)
             o.fail("snprintf returns " + std::to_string(r2) + ", the whole output has " + std::to_string(ret) + " characters");
         else if (b.vec() != expect)
             o.fail("snprintf with a size larger than the output did not store the whole output and a terminator");
+        else if (outc != out)
+        {
+            bytes ec = outc;
+            ec.push_back(0);
+            o.result = res(retc, ec);
+        }
         o.tag("sn-huge-size");
     }
     else if (is_sn)
@@ -718,6 +469,17 @@ static void run_one(const std::vector<std::string> &w, out &o)
             o.fail("snprintf returns " + std::to_string(r2) + ", the whole output has " + std::to_string(ret) + " characters");
         else if (got != expect)
             o.fail("snprintf buffer is not the first size-1 characters of the output, a terminator, and untouched bytes behind");
+        else if (outc != out)
+        {
+            bytes ec(size, 0xA5);
+            if (size)
+            {
+                size_t n = std::min(size - 1, outc.size());
+                std::copy(outc.begin(), outc.begin() + (long)n, ec.begin());
+                ec[n] = 0;
+            }
+            o.result = res(retc, ec);
+        }
         if (size && out.size() + 1 > size) o.tag("sn-truncated");
         if (size && out.size() + 1 == size) o.tag("sn-exact-fit");
         if (!size) o.tag("sn-size0");
@@ -744,6 +506,11 @@ static void run_one(const std::vector<std::string> &w, out &o)
         bytes expect(out.begin(), out.begin() + (failed ? limit : (long)out.size()));
         if (r2 != (failed ? -1 : ret) || g_fd_out != expect)
             o.fail("vfdprintf differs from __printf / first error code");
+        else if (outc != out)
+        {
+            bool failedc = limit >= 0 && (long)outc.size() > limit;
+            o.result = res(failedc ? -1 : retc, bytes(outc.begin(), outc.begin() + (failedc ? limit : (long)outc.size())));
+        }
         if (failed) o.tag("fd-error");
     }
 
@@ -782,18 +549,27 @@ static void run_one(const std::vector<std::string> &w, out &o)
     if (P.defined && P.has_p)
     {
         // any format with %p (several directives, literal text): ISO leaves the
-        // rendering of a pointer to the implementation, igris documents "0x and
-        // 16 hexadecimal digits".  Expected text = glibc on the same format with
-        // every %p directive turned into %s of that rendering (made here with
-        // glibc's %016llx), flags and width kept.
+        // rendering of a pointer to the implementation, the property demands "0x
+        // followed by hex digits that parse back to the pointer" - ANY number
+        // k >= 1 of digits (round 3b; the earlier rounds demanded igris' 16).
+        // Expected text = glibc on the same format with every %p directive
+        // turned into %s of the rendering the code chose (taken from its own
+        // field after it was checked to be 0x + hex digits with the pointer's
+        // value: locate_p_fields), flags and width kept: width and `-` padding
+        // are computed by glibc on THAT length, and so is the return value.
         bytes f2 = fz;
         std::vector<Arg> a2 = gargs;
-        for (auto &d : P.dirs)
+        bool all_ok = true;
+        for (size_t di = 0; di < P.dirs.size(); di++)
+        {
+            const Dir &d = P.dirs[di];
             if (d.conv == 'p')
             {
+                const PField *pf = nullptr;
+                for (auto &x : CN.fields) if (x.diri == (int)di) pf = &x;
+                if (!pf || !pf->ok) { all_ok = false; continue; } // (already reported above)
                 f2[d.pos] = 's';
-                char tmp[40];
-                snprintf(tmp, sizeof tmp, "0x%016llx", (unsigned long long)a2[d.argi].v);
+                const char *tmp = pf->core.c_str();
                 Arg sa;
                 sa.kind = 's';
                 sa.s = bytes(tmp, tmp + strlen(tmp));
@@ -803,6 +579,9 @@ static void run_one(const std::vector<std::string> &w, out &o)
                 sa.buf = keep.back().get();
                 a2[d.argi] = sa;
             }
+        }
+        if (all_ok)
+        {
         exact_buf fb2(f2);
         Call g{W_GLIBC, nullptr, nullptr, 0};
         long er = dispatch(&g, (const char *)fb2.p, a2, 0);
@@ -816,43 +595,66 @@ static void run_one(const std::vector<std::string> &w, out &o)
             exp2.assign(gb.p, gb.p + er);
         }
         if (out != exp2 || ret != er)
-            o.fail("with %p as 0x + 16 hex digits ISO/glibc gives " + res(er, exp2));
+            o.fail("with %p as the 0x + hex digits the code chose ISO/glibc gives " + res(er, exp2));
         o.tag("p-multi-oracle");
+        }
     }
 }
 
 // ---------------------------------------------------------------- round 3: consts, seq, premain
 static std::string consts_line(out &o)
 {
-    std::string nul(c06c_null_str(), c06c_null_str() + c06c_null_str_size());
-    std::string ns;
-    for (int i = 0; i < 8; i++) ns += (i ? "," : "") + std::to_string(c06c_n_size(i));
+    // Round 3b: PRINT_I_BUFF_SZ, PRINT_S_NULL_STR, the OPS_* masks and the number of digits of %p are INTERNAL
+    // to printf_impl.c - the property fixes none of them.  They are read where they still exist under these
+    // names (harness/C06_consts.c, every use #ifdef-guarded) and reported as TAGS; the compared result keeps what
+    // the public signature and the platform fix: INT_MAX, sizeof of __printf's return type, sizeof of the types
+    // ISO names for %n.
+    int bsz = c06c_print_i_buff_sz();
+    o.tag(bsz < 0 ? "PRINT_I_BUFF_SZ=unknown" : ("PRINT_I_BUFF_SZ=" + std::to_string(bsz)).c_str());
+    if (bsz >= 0 && bsz != 23) o.tag("PRINT_I_BUFF_SZ-differs-from-model");
+    if (bsz >= 0 && bsz < 23) o.fail("PRINT_I_BUFF_SZ below 23: 22 octal digits of 2^64-1 and the terminator do not fit");
+    if (c06c_null_str())
+    {
+        std::string nul(c06c_null_str(), c06c_null_str() + c06c_null_str_size());
+        o.tag(("PRINT_S_NULL_STR=" + hex(nul)).c_str());
+        if (hex(nul) != "286e756c6c2900") o.tag("PRINT_S_NULL_STR-differs-from-model");
+    }
+    else
+        o.tag("PRINT_S_NULL_STR=unknown");
     // the model treats `ops` as a record of independent booleans: sound only if every OPS_* is its own bit
+    // (judged on the masks that are still macros of these names)
     bool single = true;
     unsigned seen = 0;
+    int known = 0;
     for (int i = 0; i < 17; i++)
     {
         unsigned m = c06c_ops(i);
-        if (m == 0 || (m & (m - 1)) || (seen & m)) single = false;
+        if (m == 0) continue;
+        known++;
+        if ((m & (m - 1)) || (seen & m)) single = false;
         seen |= m;
     }
     if (!single) o.fail("the OPS_* masks are not distinct single bits");
-    if (c06c_print_i_buff_sz() < 23) o.fail("PRINT_I_BUFF_SZ below 23: 22 octal digits of 2^64-1 and the terminator do not fit");
-    return "PRINT_I_BUFF_SZ=" + std::to_string(c06c_print_i_buff_sz()) + " PRINT_S_NULL_STR=" + hex(nul) +
-           " ptr_digits=" + std::to_string(c06c_ptr_digits()) + " int_max=" + std::to_string(INT_MAX) +
-           " sizeof_pc=" + std::to_string(c06c_sizeof_ret()) + " n_sizes=" + ns + " ops_single_bits=" + (single ? "1" : "0");
+    o.tag(("ops_masks_known=" + std::to_string(known)).c_str());
+    o.tag(single ? "ops_single_bits=1" : "ops_single_bits=0");
+    {
+        // digits of a %p, behaviourally: <%p> of (void *)1
+        Sink sk;
+        Call c0{W_PRINTF, &sk, nullptr, 0};
+        std::vector<Arg> pa(1);
+        pa[0].kind = 'p';
+        pa[0].v = 1;
+        dispatch(&c0, "<%p>", pa, 0);
+        long digs = (long)sk.out.size() - 4;
+        o.tag(("ptr_digits=" + std::to_string(digs)).c_str());
+    }
+    std::string ns;
+    for (int i = 0; i < 8; i++) ns += (i ? "," : "") + std::to_string(c06c_n_size(i));
+    return "int_max=" + std::to_string(INT_MAX) + " sizeof_pc=" + std::to_string(c06c_sizeof_ret()) + " n_sizes=" + ns;
 }
 
 // calls made BEFORE main(): a constructor with the highest priority runs a few ops through the same code path
 // as `run` and keeps the records (static-initialisation-order dependencies of the engine would show here)
-static const char *const PREMAIN[] = {
-    "sp 25647c2535737c252378 i:-42 s:6162 i:255",    // %d|%5s|%#x
-    "sn 4 256c6c64 l:123456789",                       // %lld into 4 bytes
-    "fd -1 25632563252520252d33647c i:65 i:0 i:7",     // %c%c%% %-3d|
-    "spv 3c25703e p:1234",                             // <%p>
-    "pn 61253034646225686e i:7 N:0",                   // a%04db%hn
-};
-static const int NPREMAIN = (int)(sizeof PREMAIN / sizeof PREMAIN[0]);
 struct PremainRec
 {
     char result[160], oracle[200];
@@ -974,795 +776,6 @@ static void run_op(const std::vector<std::string> &w, const std::string &, out &
         return;
     }
     run_one(w, o);
-}
-
-// ---------------------------------------------------------------- gen
-// ---- generator (included by C06.cpp) ------------------------------------
-static std::string arg_str(const Arg &a)
-{
-    switch (a.kind)
-    {
-    case 'i':
-    case 'l':
-        return std::string(1, a.kind) + ":" + std::to_string(a.v);
-    case 'p':
-    {
-        char b[40];
-        snprintf(b, sizeof b, "p:%llx", (unsigned long long)a.v);
-        return b;
-    }
-    case 'n':
-        return "n:";
-    case 'N':
-        return "N:" + std::to_string(a.v);
-    default:
-        return std::string(1, a.kind) + ":" + hex(a.s);
-    }
-}
-static bytes B(const std::string &s) { return bytes(s.begin(), s.end()); }
-static Arg AI(long long v) { Arg a; a.kind = 'i'; a.v = (int)v; return a; }
-static Arg AL(long long v) { Arg a; a.kind = 'l'; a.v = v; return a; }
-static Arg AP(unsigned long long v) { Arg a; a.kind = 'p'; a.v = (long long)v; return a; }
-static Arg AS(const bytes &s, bool term) { Arg a; a.kind = term ? 's' : 'u'; a.s = s; return a; }
-
-static unsigned long long conv_u(const Dir &d, long long v)
-{
-    if (d.len == "hh") return (unsigned char)v;
-    if (d.len == "h") return (unsigned short)v;
-    if (d.len == "" || d.len == "L") return (unsigned int)v;
-    return (unsigned long long)v;
-}
-// the input classes of the recorded findings (see known_findings.d/C06.jsonl).
-// The two classes of the first round (`#` with a zero value, %c of NUL) were
-// repaired (fix: 8be88bc, ff2efab): they are ordinary ops now and only tagged.
-static std::string finding_key(const Parsed &P, const std::vector<Arg> &args)
-{
-    // C06-wide-ls (round 3): %ls reads its wchar_t array as a char string (the `l` is ignored, TODO in the
-    // source): wrong as soon as ISO's output has two or more characters
-    for (auto &d : P.dirs)
-        if (d.conv == 's' && d.len == "l" && d.argi >= 0 && d.argi < (int)args.size() && args[d.argi].kind == 'w' &&
-            args[d.argi].s.size() >= 2 && (!d.prec_kind || d.prec >= 2))
-            return "C06-wide-ls";
-    return "";
-}
-static std::string former_finding_class(const Parsed &P, const std::vector<Arg> &args)
-{
-    if (!P.defined)
-        return "";
-    std::string key;
-    for (auto &d : P.dirs)
-    {
-        std::string k;
-        if (d.hash && (d.conv == 'o' || d.conv == 'x' || d.conv == 'X'))
-        {
-            // `#` with a zero value: %#x prints 0x0 (any precision), %#o
-            // prints 00 when the effective precision is 1
-            unsigned long long u = conv_u(d, args[d.argi].v);
-            long prec = d.prec_kind ? d.prec : 1;
-            if (u == 0 && (d.conv != 'o' || prec == 1))
-                k = "C06-alt-zero";
-        }
-        if (d.conv == 'c' && (char)args[d.argi].v == 0)
-            k = "C06-c-nul";
-        if (!k.empty())
-            key = k;
-    }
-    return key;
-}
-
-static long g_emitted = 0;
-static void emit(const char *op, const bytes &f, const std::vector<Arg> &args, bool with_iso = false)
-{
-    if (args.size() > MAXARGS)
-        return;
-    Parsed P = classify(f, args);
-    std::string key = finding_key(P, args);
-    if (key == "skip")
-        return;
-    std::string line = hex(f);
-    for (auto &a : args)
-        line += " " + arg_str(a);
-    printf("%s%s %s\n", key.empty() ? "" : ("@F:" + key + " ").c_str(), op, line.c_str());
-    g_emitted++;
-    if (with_iso && P.defined && !P.wide)
-        printf("iso %s\n", line.c_str());
-}
-
-static const std::vector<long long> IVALS = {0, 1, -1, 42, -42, INT_MAX, INT_MIN, 255, 256, -128, 127, 128, -129, 65535, 65536, -32768, 32767, 32768, 7, 8, 9, 10, 100, -100, 0x7f00, 0xff00, 1000000, -999999};
-static const std::vector<long long> LVALS = {0, 1, -1, 42, -42, LLONG_MAX, LLONG_MIN, 2147483648LL, -2147483648LL, -2147483649LL, 4294967295LL, 4294967296LL, 9223372036854775807LL, -9223372036854775807LL, 255, 256, 65536, 1000000000000LL, -1000000000000LL, 8, 10, 16};
-static const std::vector<unsigned long long> PVALS = {0, 1, 0x1234, 0x7ffe12345678ull, 0xffffffffffffffffull, 0x8000000000000000ull, 0x1000000000000000ull, 0x0fffffffffffffffull, 0xdeadbeef};
-
-static long long rnd_int(rng &r)
-{
-    if (r.chance(60)) return r.pick(IVALS);
-    int bits = (int)r.range(1, 32);
-    long long v = (long long)(r.next() & ((1ull << bits) - 1));
-    return (int)(r.chance(40) ? -v : v);
-}
-static long long rnd_long(rng &r)
-{
-    if (r.chance(60)) return r.pick(LVALS);
-    int bits = (int)r.range(1, 64);
-    unsigned long long v = r.next() & (bits == 64 ? ~0ull : ((1ull << bits) - 1));
-    return (long long)(r.chance(40) ? (0 - v) : v);
-}
-static bytes rnd_text(rng &r, size_t n, bool allow_high)
-{
-    bytes s(n);
-    for (auto &c : s)
-    {
-        c = (uint8_t)r.range(32, 126);
-        if (allow_high && r.chance(15)) c = (uint8_t)r.range(128, 255);
-        if (r.chance(5)) c = (uint8_t)r.range(1, 31);
-        if (c == '%') c = '_';
-    }
-    return s;
-}
-// a string argument for a directive whose effective precision is `prec` (-1: none)
-static Arg rnd_str(rng &r, long prec)
-{
-    int mode = (int)r.below(prec >= 0 ? 7 : 4);
-    switch (mode)
-    {
-    case 0: return AS(B(""), true);
-    case 1: return AS(rnd_text(r, (size_t)r.range(1, 4), true), true);
-    case 2: return AS(rnd_text(r, (size_t)r.range(5, 24), true), true);
-    case 3: // unterminated allocation with an inner NUL
-    {
-        bytes s = rnd_text(r, (size_t)r.range(1, 8), true);
-        s[r.below(s.size())] = 0;
-        return AS(s, false);
-    }
-    case 4: return AS(rnd_text(r, (size_t)prec, true), false);                     // exactly `prec` bytes, no terminator
-    case 5: return AS(rnd_text(r, (size_t)prec + (size_t)r.range(1, 5), true), false); // longer, no terminator
-    default: return AS(rnd_text(r, (size_t)prec + (size_t)r.range(0, 3), true), true);
-    }
-}
-
-struct Spec
-{
-    std::string flags, width, prec, len;
-    char conv;
-    long wstar = 0, pstar = 0; // values for `*`
-};
-// append the directive text and its arguments
-static void put_dir(rng &r, const Spec &s, bytes &f, std::vector<Arg> &args)
-{
-    f.push_back('%');
-    for (char c : s.flags) f.push_back((uint8_t)c);
-    for (char c : s.width) f.push_back((uint8_t)c);
-    if (s.width == "*") args.push_back(AI(s.wstar));
-    for (char c : s.prec) f.push_back((uint8_t)c);
-    if (s.prec == ".*") args.push_back(AI(s.pstar));
-    for (char c : s.len) f.push_back((uint8_t)c);
-    f.push_back((uint8_t)s.conv);
-    long prec = -1;
-    if (s.prec == ".*") prec = s.pstar >= 0 ? s.pstar : -1;
-    else if (!s.prec.empty()) prec = atol(s.prec.c_str() + 1);
-    bool wide = s.len == "l" || s.len == "ll" || s.len == "j" || s.len == "z" || s.len == "t";
-    switch (s.conv)
-    {
-    case 'd': case 'i': case 'u': case 'o': case 'x': case 'X':
-        args.push_back(wide ? AL(rnd_long(r)) : AI(rnd_int(r)));
-        break;
-    case 'c':
-    {
-        static const std::vector<long long> cv = {65, 0, 255, 256 + 66, -1, 128, 32, 126, 256, -256, 48};
-        args.push_back(AI(r.chance(50) ? r.pick(cv) : r.range(33, 126)));
-        break;
-    }
-    case 's':
-        if (r.chance(2)) { Arg a; a.kind = 'n'; args.push_back(a); }
-        else args.push_back(rnd_str(r, prec));
-        break;
-    case 'p':
-        args.push_back(AP(r.chance(70) ? r.pick(PVALS) : r.next() >> r.below(64)));
-        break;
-    default:
-        break;
-    }
-}
-
-static const char *CONVS = "diuoxXcsp%";
-static const char *const LENS_[] = {"", "hh", "h", "l", "ll", "j", "z", "t"};
-static const std::vector<std::string> LENS(LENS_, LENS_ + 8);
-static const char *const WIDTHS_[] = {"", "1", "7", "12", "*"};
-static const std::vector<std::string> WIDTHS(WIDTHS_, WIDTHS_ + 5);
-static const char *const PRECS_[] = {"", ".", ".0", ".1", ".5", ".*"};
-static const std::vector<std::string> PRECS(PRECS_, PRECS_ + 6);
-struct Around { const char *first, *second; };
-static const Around AROUND[] = {{"", ""}, {"<", ">"}, {"a=", "."}, {"%%", " z"}, {"\t", "\n"}};
-
-static std::string flags_of(rng &r, unsigned mask)
-{
-    std::string fl;
-    const char *FL = "-+ #0";
-    for (int b = 0; b < 5; b++)
-        if (mask & (1u << b)) fl.push_back(FL[b]);
-    // random order, occasionally a repeated flag
-    for (size_t i = fl.size(); i > 1; i--) std::swap(fl[i - 1], fl[r.below(i)]);
-    if (!fl.empty() && r.chance(10)) fl.push_back(fl[r.below(fl.size())]);
-    return fl;
-}
-
-// a format of 1-3 mostly ISO-defined directives with literal text (as part (4))
-static void rnd_format(rng &r, bytes &f, std::vector<Arg> &args)
-{
-    int nd = (int)r.range(1, 3);
-    for (int d = 0; d < nd; d++)
-    {
-        bytes lit = rnd_text(r, (size_t)r.below(4), true);
-        f.insert(f.end(), lit.begin(), lit.end());
-        Spec s;
-        s.conv = CONVS[r.below(10)];
-        bool strict = r.chance(85);
-        unsigned mask = (unsigned)r.below(32);
-        if (strict)
-        {
-            if (strchr("diucsp", s.conv)) mask &= ~8u;
-            if (strchr("csp", s.conv)) mask &= ~16u;
-            if (s.conv == 'p') mask &= 1u;
-            if (s.conv == '%') mask = 0;
-        }
-        s.flags = flags_of(r, mask);
-        if (!(strict && s.conv == '%'))
-        {
-            int wk = (int)r.below(4);
-            s.width = wk == 0 ? "" : wk == 1 ? "*" : std::to_string(r.range(1, 14));
-            s.wstar = r.range(-14, 14);
-            if (!(strict && (s.conv == 'c' || s.conv == 'p')))
-            {
-                int pk = (int)r.below(5);
-                s.prec = pk == 0 ? "" : pk == 1 ? ".*" : pk == 2 ? "." : "." + std::to_string(r.range(0, 12));
-                s.pstar = r.range(-2, 12);
-            }
-            if (!(strict && strchr("csp", s.conv)) && r.chance(50))
-                s.len = LENS[r.below(LENS.size())];
-        }
-        if (args.size() + 3 > MAXARGS) break;
-        put_dir(r, s, f, args);
-    }
-    bytes lit = rnd_text(r, (size_t)r.below(4), true);
-    f.insert(f.end(), lit.begin(), lit.end());
-}
-// `op <n> <fmt> <args>` for the ops that carry a number (fd, fdv, sn, vsn)
-static void emit_n(const char *op, long n, const bytes &f, const std::vector<Arg> &args)
-{
-    if (args.size() > MAXARGS)
-        return;
-#ifdef C06_NO_VSNPRINTF
-    if (!strcmp(op, "vsn"))
-        return;
-#endif
-    Parsed P = classify(f, args);
-    if (!finding_key(P, args).empty())
-        return;
-    std::string line = hex(f);
-    for (auto &a : args) line += " " + arg_str(a);
-    printf("%s %ld %s\n", op, n, line.c_str());
-    g_emitted++;
-}
-// the same with the number given as text (declared sizes up to SIZE_MAX)
-static void emit_s(const char *op, const char *n, const bytes &f, const std::vector<Arg> &args)
-{
-    if (args.size() > MAXARGS)
-        return;
-#ifdef C06_NO_VSNPRINTF
-    if (!strcmp(op, "vsn"))
-        return;
-#endif
-    Parsed P = classify(f, args);
-    if (!finding_key(P, args).empty())
-        return;
-    std::string line = hex(f);
-    for (auto &a : args) line += " " + arg_str(a);
-    printf("%s %s %s\n", op, n, line.c_str());
-    g_emitted++;
-}
-// length of the output, for choosing buffer sizes around it (glibc; only a
-// hint for the generator, 12 when ISO does not define the format)
-static long out_len_hint(const bytes &f, const std::vector<Arg> &args)
-{
-    Parsed P = classify(f, args);
-    if (!P.defined) return 12;
-    bytes fz = f;
-    fz.push_back(0);
-    std::vector<Arg> a = args;
-    std::vector<std::unique_ptr<exact_buf>> keep;
-    for (auto &x : a)
-        if (x.kind == 's' || x.kind == 'u')
-        {
-            bytes m = x.s;
-            m.push_back(0);
-            keep.emplace_back(new exact_buf(m));
-            x.buf = keep.back().get();
-        }
-    Call g{W_GLIBC, nullptr, nullptr, 0};
-    long n = dispatch(&g, (const char *)fz.data(), a, 0);
-    for (auto &d : P.dirs)
-        if (d.conv == 'p') n += 18; // igris' %p is longer than glibc's
-    return n < 0 ? 12 : n;
-}
-
-static void gen_wrappers(rng &r, bool th)
-{
-    // (6) the remaining entry points: snprintf / vsnprintf (size argument:
-    //     0, 1, around the length of the output, larger), fdprintf (variadic)
-    static const char *const fixed_[] = {"", "a", "abc", "%d", "%5d|", "%-5d|", "x=%x", "%s", "%.3s|%c", "%%", "%p", "%lld %s"};
-    for (std::string d : fixed_)
-    {
-        bytes f = B(d);
-        Parsed P = classify(f, {});
-        std::vector<Arg> args;
-        for (char kd : P.need)
-            args.push_back(kd == 'i' ? AI(r.pick(IVALS)) : kd == 'l' ? AL(r.pick(LVALS)) : kd == 'p' ? AP(r.pick(PVALS)) : AS(B("hello"), true));
-        long n = out_len_hint(f, args);
-        for (long size = 0; size <= n + 3; size++)
-        {
-            emit_n("sn", size, f, args);
-            emit_n("vsn", size, f, args);
-        }
-        for (long lim = -1; lim <= n + 1; lim++)
-            emit_n("fdv", lim, f, args);
-    }
-    // declared sizes that mean "large enough": around INT_MAX, 2^32, SIZE_MAX / 2, SIZE_MAX
-    static const char *const huge_[] = {"4097", "2147483647", "2147483648", "4294967295", "4294967296", "9223372036854775807",
-                                        "9223372036854775808", "18446744073709551614", "18446744073709551615"};
-    for (std::string d : fixed_)
-    {
-        bytes f = B(d);
-        Parsed P = classify(f, {});
-        std::vector<Arg> args;
-        for (char kd : P.need)
-            args.push_back(kd == 'i' ? AI(r.pick(IVALS)) : kd == 'l' ? AL(r.pick(LVALS)) : kd == 'p' ? AP(r.pick(PVALS)) : AS(B("hello"), true));
-        for (const char *h : huge_)
-        {
-            emit_s("sn", h, f, args);
-            emit_s("vsn", h, f, args);
-        }
-    }
-    long n6 = th ? 12000 : 1500;
-    for (long k = 0; k < n6; k++)
-    {
-        bytes f;
-        std::vector<Arg> args;
-        rnd_format(r, f, args);
-        long n = out_len_hint(f, args);
-        if (k % 16 == 5)
-        {
-            emit_s(k % 32 == 5 ? "sn" : "vsn", huge_[r.below(sizeof huge_ / sizeof *huge_)], f, args);
-            continue;
-        }
-        long size;
-        switch ((int)r.below(6))
-        {
-        case 0: size = r.range(0, 2); break;
-        case 1: size = n + r.range(-2, 2); break;
-        case 2: size = n + 1; break; // exact fit
-        case 3: size = r.range(0, n + 1); break;
-        case 4: size = n + r.range(2, 40); break;
-        default: size = r.range(0, 48); break;
-        }
-        if (size < 0) size = 0;
-        switch ((int)(k % 4))
-        {
-        case 0: case 1: emit_n("sn", size, f, args); break;
-        case 2: emit_n("vsn", size, f, args); break;
-        default: emit_n("fdv", r.range(-1, n + 1), f, args); break;
-        }
-    }
-}
-
-// ---- round 3 generators ---------------------------------------------------
-static Arg AW(const bytes &s) { Arg a; a.kind = 'w'; a.s = s; return a; }
-static Arg AN(int slot) { Arg a; a.kind = 'N'; a.v = slot; return a; }
-static std::string sub_text(const char *op, const char *n, const bytes &f, const std::vector<Arg> &args)
-{
-    std::string line = op;
-    if (n) line += std::string(" ") + n;
-    line += " " + hex(f);
-    for (auto &a : args) line += " " + arg_str(a);
-    return line;
-}
-static void put_n(rng &r, bytes &f, std::vector<Arg> &args, int &slot, bool decorated)
-{
-    static const char *const nl[] = {"", "hh", "h", "l", "ll", "j", "z", "t", "", "hh"};
-    f.push_back('%');
-    if (decorated)
-    {
-        // flags, a width, a precision on %n: undefined in ISO, parsed and ignored by the code
-        static const char *const deco[] = {"-", "0", "5", "#", ".3", "+ ", "12.4"};
-        for (const char *c = deco[r.below(7)]; *c; c++) f.push_back((uint8_t)*c);
-    }
-    for (const char *c = nl[r.below(10)]; *c; c++) f.push_back((uint8_t)*c);
-    f.push_back('n');
-    args.push_back(AN(slot++));
-}
-// one strict (ISO-defined) directive as in rnd_format
-static void put_rnd_dir(rng &r, bytes &f, std::vector<Arg> &args, long maxw)
-{
-    Spec s;
-    s.conv = CONVS[r.below(10)];
-    unsigned mask = (unsigned)r.below(32);
-    if (strchr("diucsp", s.conv)) mask &= ~8u;
-    if (strchr("csp", s.conv)) mask &= ~16u;
-    if (s.conv == 'p') mask &= 1u;
-    if (s.conv == '%') mask = 0;
-    s.flags = flags_of(r, mask);
-    if (s.conv != '%')
-    {
-        int wk = (int)r.below(4);
-        s.width = wk == 0 ? "" : wk == 1 ? "*" : std::to_string(r.range(1, maxw));
-        s.wstar = r.range(-maxw, maxw);
-        if (!(s.conv == 'c' || s.conv == 'p'))
-        {
-            int pk = (int)r.below(5);
-            s.prec = pk == 0 ? "" : pk == 1 ? ".*" : pk == 2 ? "." : "." + std::to_string(r.range(0, 12));
-            s.pstar = r.range(-2, 12);
-        }
-        if (!strchr("csp", s.conv) && r.chance(50)) s.len = LENS[r.below(LENS.size())];
-    }
-    put_dir(r, s, f, args);
-}
-
-static void gen_round3(rng &r, bool th)
-{
-    printf("consts\n");
-    for (int k = 0; k < NPREMAIN; k++) printf("premain %d %s\n", k, PREMAIN[k]);
-
-    // (7) %n: every length modifier at the counts where the converted value changes
-    {
-        static const char *const nl[] = {"", "hh", "h", "l", "ll", "j", "z", "t"};
-        static const long cnts[] = {0, 1, 2, 127, 128, 255, 256, 257, 300, 32767, 32768, 65535, 65536, 65537};
-        for (const char *l : nl)
-            for (long cnt : cnts)
-            {
-                std::string d = std::string("%*s%") + l + "n|";
-                emit("pn", B(d), {AI(cnt), AS(B(""), true), AN(0)});
-            }
-        emit("pn", B("%n"), {AN(0)});
-        emit("pn", B("%n%n%hhn"), {AN(0), AN(1), AN(2)});
-        emit("pn", B("abc%ndef%lln%%%hn"), {AN(0), AN(1), AN(2)});
-        emit("pn", B("%5n|%-n|%.3n|%*n|%0hhn"), {AN(0), AN(1), AN(2), AI(7), AN(3), AN(4)});
-        emit("pn", B("%Ln"), {AN(0)});
-        long n7 = th ? 20000 : 3000;
-        for (long k = 0; k < n7; k++)
-        {
-            bytes f;
-            std::vector<Arg> args;
-            int slot = 0;
-            int nseg = (int)r.range(1, 4);
-            for (int q = 0; q < nseg; q++)
-            {
-                bytes lit = rnd_text(r, (size_t)r.below(5), true);
-                f.insert(f.end(), lit.begin(), lit.end());
-                if (args.size() + 3 <= MAXARGS && r.chance(70)) put_rnd_dir(r, f, args, r.chance(10) ? 300 : 14);
-                if (args.size() + 1 <= MAXARGS && r.chance(60)) put_n(r, f, args, slot, r.chance(8));
-            }
-            emit("pn", f, args);
-        }
-        // the ordinary stream through the int-accurate model as well
-        long n7b = th ? 8000 : 1500;
-        for (long k = 0; k < n7b; k++)
-        {
-            bytes f;
-            std::vector<Arg> args;
-            rnd_format(r, f, args);
-            emit("pn", f, args);
-        }
-    }
-    // (8) literal widths / precisions of 10 and more digits: atoi overflows `int`
-    {
-        static const char *const big[] = {"%4294967301d", "%4294967296d|", "%99999999999999999999d", "%-4294967299s|",
-                                          "%.4294967298d", "%.99999999999999999999d", "%.4294967297s", "%9999999999d",
-                                          "%2147483653s", "%.2147483648d", "%.9223372036854775808x", "%18446744073709551616d",
-                                          "%5.4294967300d|%d", "a%4294967297cb"};
-        for (std::string d : big)
-        {
-            bytes f = B(d);
-            Parsed P = classify(f, {});
-            std::vector<Arg> args;
-            for (char kd : P.need) args.push_back(kd == 'i' ? AI(r.pick(IVALS)) : AS(B("xyz"), true));
-            emit("pn", f, args);
-        }
-        // the literal form of the recorded finding: atoi gives INT_MIN on this host, `width = -width` overflows
-        printf("@F:C06-star-width-int-min pfmin %s i:7\n", hex(B("%2147483648d")).c_str());
-    }
-    // (9) `*` and literal widths / precisions at the 8- and 16-bit boundaries
-    {
-        static const long bw[] = {254, 255, 256, 257, 4095, 4096, 4097, 65534, 65535, 65536, 65537, -255, -256, -65536};
-        for (long w : bw)
-        {
-            emit("pf", B("%*d|"), {AI(w), AI(r.pick(IVALS))}, true);
-            emit("pf", B("%-*s|"), {AI(w), AS(B("ab"), true)}, true);
-            emit("pf", B("<%*p>"), {AI(w), AP(r.pick(PVALS))}, false);
-            if (w >= 0)
-            {
-                emit("pf", B("%.*d|"), {AI(w), AI(r.pick(IVALS))}, true);
-                emit("pf", B("%#.*llo|"), {AI(w), AL(r.pick(LVALS))}, true);
-                emit("pf", B("%" + std::to_string(w) + "u|"), {AI(r.pick(IVALS))}, true);
-                emit("pf", B("%." + std::to_string(w) + "x|"), {AI(r.pick(IVALS))}, true);
-                bytes longs((size_t)w + 3, 'q');
-                emit("pf", B("%.*s|"), {AI(w), AS(longs, true)}, true);
-                bytes exact((size_t)w, 'r');
-                if (w) emit("pf", B("%.*s|"), {AI(w), AS(exact, false)}, true);
-                if (w <= 4095)
-                {
-                    emit_n("sn", w, B("%*d"), {AI(w), AI(5)}); // the output is exactly one longer than the buffer holds
-                    emit_n("vsn", w + 1, B("%*d"), {AI(w), AI(5)});
-                }
-            }
-        }
-    }
-    // (10) long inputs (the routines are linear): 330 000 / 300 000 characters
-    {
-        bytes big(330000), unt(300000);
-        for (size_t i = 0; i < big.size(); i++) big[i] = (uint8_t)('a' + i % 26);
-        for (size_t i = 0; i < unt.size(); i++) unt[i] = (uint8_t)('A' + i % 26);
-        emit("pf", B("%s"), {AS(big, true)}, true);
-        emit("pf", B("[%.*s]"), {AI(300000), AS(unt, false)}, true);
-        emit("pf", B("%-99999d|%099999d|%.99999x"), {AI(-5), AI(-5), AI(255)}, true);
-        emit("sp", B("<%s>"), {AS(big, true)});
-        emit_n("sn", 0, B("%s"), {AS(big, true)});
-        emit_n("sn", 1, B("%s"), {AS(big, true)});
-        emit_n("vsn", 4096, B("%s"), {AS(big, true)});
-        // (exactly fitting with a long output: the model's snprintf writes through List.set, quadratic - 4 000 characters)
-        emit_n("sn", 4001, B("%.4000s"), {AS(big, true)});
-        emit_n("vsn", 4000, B("%.4000s"), {AS(big, true)});
-        emit_n("fd", 299999, B("%s"), {AS(big, true)});
-        emit_n("fdv", -1, B("%s"), {AS(big, true)});
-    }
-    // (11) every entry point on the same format and arguments, in one process state, one after the other;
-    //      sizes 0, 1, exactly fitting, one short, SIZE_MAX; and random interleavings of different calls
-    {
-        static const char *const fixed_[] = {"", "a", "%d", "%5d|", "x=%x", "%s", "%.3s|%c", "%%", "%p", "%lld %s", "%-8.3o|%+i"};
-        std::vector<std::pair<bytes, std::vector<Arg>>> pool;
-        for (std::string d : fixed_)
-        {
-            bytes f = B(d);
-            Parsed P = classify(f, {});
-            std::vector<Arg> args;
-            for (char kd : P.need)
-                args.push_back(kd == 'i' ? AI(r.pick(IVALS)) : kd == 'l' ? AL(r.pick(LVALS)) : kd == 'p' ? AP(r.pick(PVALS)) : AS(B("hello"), true));
-            pool.push_back({f, args});
-        }
-        long n11 = th ? 3000 : 300;
-        for (long k = 0; k < n11; k++)
-        {
-            bytes f;
-            std::vector<Arg> args;
-            rnd_format(r, f, args);
-            pool.push_back({f, args});
-        }
-        for (auto &fa : pool)
-        {
-            const bytes &f = fa.first;
-            const std::vector<Arg> &args = fa.second;
-            long n = out_len_hint(f, args);
-            std::vector<std::string> sizes = {"0", "1", std::to_string(n), std::to_string(n + 1), std::to_string(n + 2), "18446744073709551615"};
-            for (auto &sz : sizes)
-            {
-                if (strtoull(sz.c_str(), 0, 10) > 4096 && sz.size() < 10) continue;
-                std::string lim = std::to_string(r.range(-1, n + 1));
-                printf("seq %s / %s / %s / %s / %s / %s / %s\n", sub_text("sp", nullptr, f, args).c_str(),
-                       sub_text("spv", nullptr, f, args).c_str(), sub_text("sn", sz.c_str(), f, args).c_str(),
-                       sub_text("vsn", sz.c_str(), f, args).c_str(), sub_text("fd", "-1", f, args).c_str(),
-                       sub_text("fdv", lim.c_str(), f, args).c_str(), sub_text("pf", nullptr, f, args).c_str());
-                g_emitted++;
-                if (&fa - &pool[0] >= 11 && &sz - &sizes[0] >= 1) break; // random formats: two sizes each
-            }
-        }
-        long n11b = th ? 3000 : 400;
-        static const char *const ops_[] = {"sp", "spv", "sn", "vsn", "fd", "fdv", "pf", "pn"};
-        for (long k = 0; k < n11b; k++)
-        {
-            int nc = (int)r.range(2, 6);
-            std::string line = "seq";
-            for (int q = 0; q < nc; q++)
-            {
-                const auto &fa = r.chance(30) ? pool[r.below(11)] : pool[r.below(pool.size())];
-                const char *op = ops_[r.below(8)];
-                long n = out_len_hint(fa.first, fa.second);
-                std::string num;
-                if (!strcmp(op, "sn") || !strcmp(op, "vsn")) num = std::to_string(r.chance(50) ? r.range(0, 3) : std::max(0L, n + r.range(-2, 2)));
-                if (!strcmp(op, "fd") || !strcmp(op, "fdv")) num = std::to_string(r.range(-1, n + 1));
-                line += (q ? " / " : " ") + sub_text(op, num.empty() ? nullptr : num.c_str(), fa.first, fa.second);
-            }
-            printf("%s\n", line.c_str());
-            g_emitted++;
-        }
-    }
-    // (12) %lc / %ls: the code ignores the `l`
-    {
-        for (int v : {1, 65, 97, 126, 127}) emit("pf", B("[%lc]"), {AI(v)}, true);
-        emit("pf", B("[%-4lc|%4lc]"), {AI(66), AI(67)}, true);
-        emit("pf", B("%ls"), {AW(B(""))}, true);
-        emit("pf", B("%ls|"), {AW(B("a"))}, true);
-        emit("pf", B("%.1ls|"), {AW(B("ab"))}, true);
-        emit("pf", B("%5ls|%-5ls|"), {AW(B("a")), AW(B("b"))}, true);
-        emit("pf", B("%.0ls|"), {AW(B("abc"))}, true);
-        // finding C06-wide-ls (emit() marks them as probes)
-        emit("pf", B("%ls"), {AW(B("ab"))}, true);
-        emit("pf", B("<%.2ls>"), {AW(B("abc"))}, true);
-        emit("pf", B("<%6ls>"), {AW(B("hello"))}, true);
-    }
-}
-
-static void gen(rng &r, const std::string &tier)
-{
-    bool th = tier == "thorough";
-    // (1) the directive grammar, enumerated
-    int per = th ? 4 : 1;
-    long combo = 0;
-    for (unsigned mask = 0; mask < 32; mask++)
-        for (auto &wd : WIDTHS)
-            for (auto &pr : PRECS)
-                for (auto &ln : LENS)
-                    for (const char *cv = CONVS; *cv; cv++)
-                        for (int rep = 0; rep < per; rep++)
-                        {
-                            combo++;
-                            Spec s;
-                            s.flags = flags_of(r, mask);
-                            s.width = wd; s.prec = pr; s.len = ln; s.conv = *cv;
-                            s.wstar = r.range(-3, 12);
-                            s.pstar = r.chance(20) ? -1 : r.range(0, 9);
-                            const Around &ar = (*cv == 'p') ? AROUND[1] : AROUND[r.below(5)];
-                            bytes f = B(ar.first);
-                            std::vector<Arg> args;
-                            put_dir(r, s, f, args);
-                            for (const char *c = ar.second; *c; c++) f.push_back((uint8_t)*c);
-                            emit("pf", f, args, true);
-                        }
-    // (2) every integer boundary value through the plain and the most
-    //     interacting directives
-    {
-        static const char *const ds_[] = {"%d", "%i", "%u", "%o", "%x", "%X", "%+d", "% d", "%05d", "%-5d|", "%.5d", "%+.5d", "%08.3d", "%#o", "%#x", "%#X", "%.0d", "%.0u", "%.0x", "%+.0d", "%#.0o", "%#.0x", "%*d", "%-*d|", "%.*d", "%5.3u", "%#7.4x", "%#-7o|", "%hhd", "%hhu", "%hd", "%hu", "%hhx", "%hx", "% 05d", "%+ d", "%-05d|", "%3d", "%10.7d", "%#10.7x", "%#.7o", "%#3o"};
-        static const char *const dl_[] = {"%ld", "%lld", "%jd", "%zd", "%td", "%lu", "%llu", "%ju", "%zu", "%tu", "%lo", "%llx", "%jX", "%+ld", "%.20lld", "%025lld", "%-25lld|", "%#llo", "%#llx", "%#.25llo", "%*lld", "%.*llu", "%30.25lld", "%#30.25llx", "% lld", "%.0ld", "%#.0lo"};
-        for (std::string d : ds_)
-            for (long long v : IVALS)
-            {
-                std::vector<Arg> a;
-                if (d.find('*') != std::string::npos) a.push_back(AI(r.range(-3, 12)));
-                a.push_back(AI(v));
-                emit("pf", B(d), a, true);
-            }
-        for (std::string d : dl_)
-            for (long long v : LVALS)
-            {
-                std::vector<Arg> a;
-                if (d.find('*') != std::string::npos) a.push_back(AI(r.range(-3, 30)));
-                a.push_back(AL(v));
-                emit("pf", B(d), a, true);
-            }
-        // all 8-bit values through %c, %hhd, %hhu; all `*` widths/precisions in a band
-        for (int v = -130; v < 260; v++)
-        {
-            emit("pf", B("[%c]"), {AI(v)}, true);
-            emit("pf", B("%hhd %hhu"), {AI(v), AI(v)}, true);
-        }
-        for (int w = -20; w <= 20; w++)
-            for (int p = -2; p <= 12; p++)
-            {
-                emit("pf", B("%*.*d|"), {AI(w), AI(p), AI(r.pick(IVALS))}, true);
-                emit("pf", B("%0*.*x|"), {AI(w), AI(p), AI(r.pick(IVALS))}, true);
-                emit("pf", B("%*.*s|"), {AI(w), AI(p), rnd_str(r, p >= 0 ? p : -1)}, true);
-                emit("pf", B("<%*p>"), {AI(w), AP(r.pick(PVALS))}, false);
-            }
-    }
-    // (3) strings: empty / short / exactly sized unterminated with a precision
-    {
-        for (int n = 0; n <= 12; n++)
-            for (int p = 0; p <= 13; p++)
-            {
-                bytes s = rnd_text(r, (size_t)n, true);
-                std::string pd = "%." + std::to_string(p) + "s";
-                emit("pf", B(pd), {AS(s, true)}, true);
-                if (p <= n) emit("pf", B(pd), {AS(s, false)}, true);
-                emit("pf", B("%-15.*s|"), {AI(p), AS(s, true)}, true);
-                emit("pf", B("%15.*s|"), {AI(p), p <= n ? AS(s, false) : AS(s, true)}, true);
-            }
-        emit("pf", B("%s"), {AS(B(""), true)}, true);
-        emit("pf", B("%s%s%s"), {AS(B("a"), true), AS(B(""), true), AS(B("bc"), true)}, true);
-        { Arg a; a.kind = 'n'; emit("pf", B("%s|%.3s|%10s"), {a, a, a}, false); }
-    }
-    // (4) several directives in one format, with literal text
-    long n4 = th ? 40000 : 6000;
-    for (long k = 0; k < n4; k++)
-    {
-        bytes f;
-        std::vector<Arg> args;
-        int nd = (int)r.range(1, 3);
-        for (int d = 0; d < nd; d++)
-        {
-            bytes lit = rnd_text(r, (size_t)r.below(4), true);
-            f.insert(f.end(), lit.begin(), lit.end());
-            Spec s;
-            s.conv = CONVS[r.below(10)];
-            bool strict = r.chance(75); // mostly ISO-defined combinations
-            unsigned mask = (unsigned)r.below(32);
-            if (strict)
-            {
-                if (strchr("diucsp", s.conv)) mask &= ~8u;       // '#'
-                if (strchr("csp", s.conv)) mask &= ~16u;         // '0'
-                if (s.conv == 'p') mask &= 1u;
-                if (s.conv == '%') mask = 0;
-            }
-            s.flags = flags_of(r, mask);
-            if (!(strict && s.conv == '%'))
-            {
-                int wk = (int)r.below(4);
-                s.width = wk == 0 ? "" : wk == 1 ? "*" : std::to_string(r.range(1, 25));
-                s.wstar = r.range(-25, 25);
-                if (!(strict && (s.conv == 'c' || s.conv == 'p')))
-                {
-                    int pk = (int)r.below(5);
-                    s.prec = pk == 0 ? "" : pk == 1 ? ".*" : pk == 2 ? "." : "." + std::to_string(r.range(0, 25));
-                    s.pstar = r.range(-2, 25);
-                }
-                if (!(strict && strchr("csp", s.conv)) && r.chance(50))
-                    s.len = LENS[r.below(LENS.size())];
-            }
-            if (args.size() + 3 > MAXARGS) break;
-            put_dir(r, s, f, args);
-        }
-        bytes lit = rnd_text(r, (size_t)r.below(4), true);
-        f.insert(f.end(), lit.begin(), lit.end());
-        const char *op = k % 11 == 0 ? "sp" : k % 11 == 1 ? "spv" : "pf";
-        if (k % 11 == 2)
-        {
-            // vfdprintf with an output error after `limit` characters
-            Parsed P = classify(f, args);
-            if (finding_key(P, args).empty())
-            {
-                std::string line = hex(f);
-                for (auto &a : args) line += " " + arg_str(a);
-                printf("fd %ld %s\n", (long)r.range(-1, 12), line.c_str());
-            }
-            continue;
-        }
-        emit(op, f, args, op[0] == 'p' && op[1] == 'f');
-    }
-    // (5) token soup: malformed and unusual directives (model vs code only;
-    //     glibc is consulted only where ISO defines the behaviour)
-    {
-        static const char *const tok[] = {"%", "%", "%", "-", "+", " ", "#", "0", "1", "2", "9", "10", "*", ".", ".", "h", "hh", "l", "ll", "j", "z", "t", "L", "d", "i", "u", "o", "x", "X", "c", "s", "p", "%%", "q", "y", "\t", "k", "Z", "\x80", "\xff", "5"};
-        long n5 = th ? 30000 : 5000;
-        for (long k = 0; k < n5; k++)
-        {
-            bytes f;
-            int nt = (int)r.range(1, 9);
-            for (int t = 0; t < nt; t++)
-                for (const char *c = tok[r.below(sizeof tok / sizeof tok[0])]; *c; c++) f.push_back((uint8_t)*c);
-            Parsed P = classify(f, {});
-            if (P.need.size() > MAXARGS) continue;
-            // widths/precisions through `*` need their values before the string
-            // arguments can be sized: two passes
-            std::vector<Arg> args;
-            for (char kd : P.need)
-                args.push_back(kd == 'i' ? AI(r.chance(50) ? r.range(-4, 14) : rnd_int(r)) : kd == 'l' ? AL(rnd_long(r)) : kd == 'p' ? AP(r.pick(PVALS)) : AS(rnd_text(r, (size_t)r.below(6), true), true));
-            // star arguments must stay small (they are widths)
-            Parsed Q = classify(f, args);
-            bool ok = true;
-            for (auto &d : Q.dirs)
-                if (labs(d.width) > 64 || labs(d.prec) > 64) ok = false;
-            // a `*` value is any 'i' argument that is not a conversion's value:
-            // simply clamp every int that a star consumed
-            if (!ok)
-            {
-                for (auto &a : args)
-                    if (a.kind == 'i' && (a.v > 64 || a.v < -64)) a.v = a.v % 13;
-            }
-            emit("pf", f, args, true);
-        }
-    }
-    gen_wrappers(r, th);
-    gen_round3(r, th);
-    // probes of the recorded finding C06-star-width-int-min: `width = -width`
-    // on INT_MIN is a signed overflow (UBSan aborts); excluded from the stream
-    // everywhere else (classify: "width INT_MIN", generators keep `*` small)
-    printf("@F:C06-star-width-int-min pfmin 252a64 i:-2147483648 i:1\n");
-    printf("@F:C06-star-width-int-min pfmin 3c252d2a733e i:-2147483648 s:6162\n");
 }
 
 int main(int argc, char **argv) { return main_(argc, argv, gen, run_op); }
